@@ -18,7 +18,7 @@ FILES = {
     "C19": ALL, "C20": ALL,
 }
 BASELINE = os.path.join(lib.VERIF, "anchors.json")
-FACTOR = 5
+FACTOR = 8
 
 
 def _strip(node):
